@@ -439,10 +439,7 @@ def swar_expr(e, consts):
 
 # swar.rs: match_tail / match_block are read as Scan.first_bad by the loop translator (loops2v.py): their text is
 # pinned.  The three loop shells themselves are translated (Generated/Loops.v) and proved equal to Scan.v's.
-SWAR_LOOPS = [
-    ('match_tail', 'fn match_tail ( f : impl Fn ( u8 ) -> bool , bytes : & [ u8 ] ) -> usize { for ( i , & b ) in bytes . iter ( ) . enumerate ( ) { if ! f ( b ) { return i ; } } bytes . len ( ) }'),
-    ('match_block', 'fn match_block ( f : impl Fn ( u8 ) -> bool , block : ByteBlock ) -> usize { for ( i , & b ) in block . iter ( ) . enumerate ( ) { if ! f ( b ) { return i ; } } BLOCK_SIZE }'),
-]
+SWAR_LOOPS = []   # match_tail / match_block / offsetnz are translated (swarfns2v.py, G13) since round 12
 
 
 def g2_swar(toks):
@@ -465,9 +462,6 @@ def g2_swar(toks):
     hdr, body = fn_body(toks, "uniform_block")
     if norm(hdr) != "fn uniform_block ( b : u8 ) -> usize" or norm(body) != SWAR_UNIFORM:
         raise TranslationError("uniform_block changed: %s { %s }" % (norm(hdr), norm(body)))
-    hdr, body = fn_body(toks, "offsetnz")
-    if norm(hdr) != "fn offsetnz ( block : usize ) -> usize" or norm(body) != SWAR_OFFSETNZ:
-        raise TranslationError("swar::offsetnz changed: %s { %s }" % (norm(hdr), norm(body)))
     for fn in ("match_uri_char_8_swar", "match_header_value_char_8_swar"):
         hdr, body = fn_body(toks, fn)
         if norm(hdr) != "fn %s ( block : ByteBlock ) -> usize" % fn:
@@ -1318,6 +1312,14 @@ def main():
         return text
 
     gen("Loops.v", loopsv)
+
+    def swarfns():
+        import swarfns2v
+        text, errs = swarfns2v.generate(toks("src/simd/swar.rs"))
+        errors.extend("SwarFns.v: " + e for e in errs)
+        return text
+
+    gen("SwarFns.v", swarfns)
 
     coqdir = os.path.dirname(os.path.abspath(outdir))
 
